@@ -39,6 +39,13 @@ pub struct Branch {
     pub(crate) spent_created: std::collections::HashMap<(Byte32, u32), u64>,
     /// live outputs after block i
     pub(crate) live_at: Vec<Vec<Live>>,
+    /// the transactions of this branch: (block, transaction, cells it spends, scripts of its outputs)
+    pub(crate) txlog: Vec<(u64, TransactionView, Vec<Live>, Vec<u64>)>,
+    /// transactions of the branch this one forked from that lie above the fork point: the
+    /// extension confirms some of them again, in another block and at another position
+    pub(crate) orphans: Vec<(u64, TransactionView, Vec<Live>, Vec<u64>)>,
+    /// hashes of the transactions confirmed again on this branch
+    pub(crate) reconfirmed: BTreeSet<Byte32>,
 }
 
 impl Branch {
@@ -48,6 +55,9 @@ impl Branch {
             facts: Vec::new(),
             spent_created: Default::default(),
             live_at: vec![Vec::new()],
+            txlog: Vec::new(),
+            orphans: Vec::new(),
+            reconfirmed: BTreeSet::new(),
         }
     }
     pub(crate) fn extend(&mut self, rng: &mut Rng, n: u64, salt: u64) {
@@ -60,7 +70,14 @@ impl Branch {
                 let mut inputs = Vec::new();
                 let mut spent = Vec::new();
                 if !live.is_empty() && rng.chance(1, 2) {
-                    let i = rng.below(live.len() as u64) as usize;
+                    let mut i = rng.below(live.len() as u64) as usize;
+                    // prefer an output of a transaction that was confirmed again on this branch
+                    // (its stored position is the one of the abandoned branch unless rewritten)
+                    if (salt + b + k) % 2 == 1 {
+                        if let Some(j) = live.iter().position(|x| self.reconfirmed.contains(&x.tx_hash)) {
+                            i = j;
+                        }
+                    }
                     let l = live.remove(i);
                     inputs.push((l.tx_hash.clone(), l.index));
                     spent.push(l);
@@ -85,7 +102,35 @@ impl Branch {
                     self.facts.push((*sid, b, t.hash(), o as u32, true));
                     live.push(Live { tx_hash: t.hash(), index: o as u32, sid: *sid, block: b });
                 }
+                self.txlog.push((b, t.clone(), spent.clone(), outputs.iter().map(|(sid, _)| *sid).collect()));
                 txs.push(t);
+            }
+            // a transaction of the abandoned branch is confirmed again (decided from salt and
+            // height, not drawn: the random stream of the histories stays what it was)
+            if !self.orphans.is_empty() && (salt.wrapping_mul(31).wrapping_add(b)) % 2 == 0 {
+                let (_, t, spent, out_sids) = self.orphans.remove(0);
+                let spendable = spent.iter().all(|l| live.iter().any(|x| x.tx_hash == l.tx_hash && x.index == l.index));
+                if spendable {
+                    for l in &spent {
+                        live.retain(|x| !(x.tx_hash == l.tx_hash && x.index == l.index));
+                    }
+                    for (i, l) in spent.iter().enumerate() {
+                        self.facts.push((l.sid, b, t.hash(), i as u32, false));
+                        self.spent_created.insert((t.hash(), i as u32), l.block);
+                    }
+                    for (o, sid) in out_sids.iter().enumerate() {
+                        self.facts.push((*sid, b, t.hash(), o as u32, true));
+                        live.push(Live { tx_hash: t.hash(), index: o as u32, sid: *sid, block: b });
+                    }
+                    self.txlog.push((b, t.clone(), spent.clone(), out_sids.clone()));
+                    self.reconfirmed.insert(t.hash());
+                    // in front of or behind the new transactions of the block
+                    if (salt + b) % 3 == 0 {
+                        txs.insert(0, t);
+                    } else {
+                        txs.push(t);
+                    }
+                }
             }
             self.chain.append_with_txs(txs);
             self.live_at.push(live);
@@ -97,6 +142,9 @@ impl Branch {
             facts: self.facts.iter().filter(|f| f.1 <= at).cloned().collect(),
             spent_created: self.spent_created.clone(),
             live_at: self.live_at[..=at as usize].to_vec(),
+            txlog: self.txlog.iter().filter(|t| t.0 <= at).cloned().collect(),
+            orphans: self.txlog.iter().filter(|t| t.0 > at).cloned().collect(),
+            reconfirmed: BTreeSet::new(),
         }
     }
     pub(crate) fn cells(&self) -> BTreeSet<Cell> {
@@ -287,7 +335,7 @@ pub fn run_mode(opts: &Options, prop: &str) -> Report {
         let n = match (prop, opts.thorough()) {
             ("C03", false) => 40,
             ("C03", true) => 600,
-            ("C08", false) => 8,
+            ("C08", false) => 30,
             ("C08", true) => 150,
             (_, false) => 80,
             (_, true) => 1500,
@@ -356,10 +404,13 @@ pub fn run_mode(opts: &Options, prop: &str) -> Report {
         let mut rolled_back = false;
         // the writes of the steps are counted (the first start and set_scripts have their own
         // crash enumeration in sync.rs)
+        let sites: std::rc::Rc<std::cell::RefCell<Vec<&'static str>>> = Default::default();
         {
             let w = writes.clone();
-            crate::verif_hooks::set_before_write(Some(Box::new(move |_site| {
+            let sites = sites.clone();
+            crate::verif_hooks::set_before_write(Some(Box::new(move |site| {
                 w.set(w.get() + 1);
+                sites.borrow_mut().push(site);
                 if Some(w.get()) == crash_at {
                     panic!("simulated crash at store write {}", w.get());
                 }
@@ -500,7 +551,17 @@ pub fn run_mode(opts: &Options, prop: &str) -> Report {
                 // crash points: every write if there are few, else a sample
                 let total = writes.get();
                 let mut r2 = Rng::new(*seed ^ 0xc8c8);
-                let ks: BTreeSet<u64> = if opts.thorough() || total <= 30 { (1..=total).collect() } else { (0..30).map(|_| r2.range(1, total)).collect() };
+                let mut ks: BTreeSet<u64> = if opts.thorough() || total <= 30 { (1..=total).collect() } else { (0..30).map(|_| r2.range(1, total)).collect() };
+                // the writes of a tip update / fork switch and their neighbours are always taken
+                // (tip, remembered headers, record removals, the rollback batch next to them)
+                for (i, site) in sites.borrow().iter().enumerate() {
+                    if matches!(*site, "put_last_state" | "put_last_n_headers" | "delete_matched_blocks") && ks.len() < 120 {
+                        let k = i as u64 + 1;
+                        for j in [k.saturating_sub(1).max(1), k, (k + 1).min(total)] {
+                            ks.insert(j);
+                        }
+                    }
+                }
                 crash_points.extend(ks.into_iter().map(Some));
             }
         } else {
